@@ -54,7 +54,7 @@ namespace {
   } else {
     auto tags = tokens;
     tags.erase(begin(tags));
-    if (std::isdigit(tags.rbegin()->at(0))) {
+    if (const auto lastTag = tags.back(); !empty(lastTag) && std::isdigit(lastTag.front())) {
       tags.erase(prev(end(tags)));
     }
     return Morphology{ tags };
